@@ -27,8 +27,10 @@ RULE = (
     "handles (creation with x/w and given h1/h2/b0, reopen r/a through the SAME object so its cached table of contents and "
     "end offset are reused) and Collections (read-only / writable; bufsize -1, 0, small, large; fresh or pickle-cloned). At most "
     "one handle is open at a time; staleness arises across open/close while another handle appended. Operations: open, close, "
-    "session begin/end, put, get, keys, contains/len/items, clone, and the failing operations duplicate key, 256-byte key, "
-    "write through a read-only handle, use of a closed UKVFile. Key alphabet: 1-byte, binary (\\x00, \\xff), 255 and 256 bytes; "
+    "session begin/end, put, get, keys, contains/len/items/values/iteration, explicit flush, clone, and the failing operations duplicate "
+    "key, key longer than 255 BYTES (also: fewer than 256 characters but more than 255 bytes in UTF-8), non-bytes value, exclusive "
+    "creation of the existing file, write through a read-only handle, use of a closed UKVFile. Key alphabet: 1-byte, binary (\\x00, "
+    "\\xff), multi-byte UTF-8, 254/255 and 256+ bytes; "
     "values 0 B..70 kB incl. raw-buffer boundary sizes. After every step the handle's view is compared with a dict model; at "
     "every close a throw-away reader must see exactly the model and the creation header. distinct_nontrivial counts distinct "
     "digests of (op kind, handle kind, outcome) sequences among histories with a stale reopen or a failing operation."
@@ -45,10 +47,11 @@ REAL_VS_STUB = {
     "stub": ["raw disk + namespace (SimFS)", "fcntl lock table (SimLockMech)", "clock"],
 }
 FAULT_PROBES = {"duplicate_key_put": "dup_rejected", "oversize_key_put": "key_256_rejected", "write_through_readonly_handle": "readonly_write_rejected",
-                "use_of_closed_handle": "closed_handle_rejected", "non_bytes_value": "badvalue_rejected"}
+                "use_of_closed_handle": "closed_handle_rejected", "non_bytes_value": "badvalue_rejected", "exclusive_create_of_existing_file": "create_existing_rejected"}
 PROBES = ["shortcut_taken", "rescan_forced_by_other_handle", "rescan_after_failed_put", "flush_by_bufsize_threshold", "key_255", "key_256_rejected",
           "direct_raw_write", "dup_rejected", "readonly_write_rejected", "closed_handle_rejected", "clone_used", "queued_key_read_in_session",
-          "history_len_le_6", "badvalue_rejected", "put_left_in_the_queue"]
+          "history_len_le_6", "badvalue_rejected", "put_left_in_the_queue", "create_existing_rejected", "explicit_flush",
+          "multibyte_key_stored", "multibyte_key_oversize_in_bytes_only"]
 
 
 def budget(tier):
@@ -60,6 +63,11 @@ def budget(tier):
 # ---------------------------------------------------------------------------- generation
 _KEYS = ["a", "b", "k1", "k2", "k3", "key-long-1", "\x00", "\xff", "\x00\xff\x01", ["L1_", 255], ["L2_", 255], ["M_", 100]]
 _KEYS_ASCII = ["a", "b", "k1", "k2", "k3", "key-long-1", "Z", "zz", ["L1_", 255], ["L2_", 255], ["M_", 100]]
+# keys of a Collection are str, stored UTF-8 encoded: multi-byte keys whose byte length (what the file format limits to 255)
+# differs from their character length.  127 x 2 = 254 B and 85 x 3 = 255 B fit; 128 x 2 = 256 B and 86 x 3 = 258 B do not
+# although they have far fewer than 255 characters.
+_KEYS_UTF8 = [["U", "\u00e9", 1], ["U", "\u20ac1", 1], ["U", "\u00fc", 127], ["U", "\u20ac", 85]]
+_KEYS_UTF8_OVERSIZE = [["U", "\u00fc", 128], ["U", "\u20ac", 86], ["U", "\u00e9", 200]]
 
 
 def _gen_val(r, tag, bufsize):
@@ -91,7 +99,7 @@ def gen_plan(r, tier, index):
                             "cb": r.choice([-1, -1, 0, 30, 1 << 20])})
     all_coll = all(h["type"] == "coll" for h in handles)
     any_coll = any(h["type"] == "coll" for h in handles)
-    keys = _KEYS_ASCII if any_coll else _KEYS
+    keys = (_KEYS_ASCII + _KEYS_UTF8) if any_coll else (_KEYS + _KEYS_UTF8[:2])
     short_hist = r.random() < 0.12
     length = r.randrange(2, 7) if short_hist else r.randrange(5, 61)
     header = {"h1": r.choice([None, None, "MYLIB", "ML10UKV01", "SIXTEENBYTESLONG"]), "h2": r.choice(["", "", "a comment", "x" * 700]),
@@ -126,6 +134,10 @@ def gen_plan(r, tier, index):
                     ops.append({"op": "clone", "h": h, "to": to})
                     state["created"][to] = True
                     continue
+            if c > 0.95:
+                # creating a library that already exists must fail and leave it alone
+                ops.append({"op": "x_existing", "h": h})
+                continue
             if handles[h]["type"] == "ukv":
                 if c < 0.2:
                     # use of a closed handle must fail
@@ -165,6 +177,9 @@ def gen_plan(r, tier, index):
                 continue
             if cc < 0.07:
                 k = [f"OV{state['tag']}_", 256]
+                if r.random() < 0.4:
+                    # fewer than 256 characters, more than 255 bytes
+                    k = list(r.choice(_KEYS_UTF8_OVERSIZE))
             elif cc < 0.2 and state["model"]:
                 k = r.choice(sorted(state["model"], key=repr))
                 k = list(k) if isinstance(k, tuple) else k
@@ -177,10 +192,12 @@ def gen_plan(r, tier, index):
             continue
         if c < 0.75:
             ops.append({"op": "get", "h": h, "k": r.choice(keys)})
-        elif c < 0.9:
+        elif c < 0.88:
             ops.append({"op": "keys", "h": h})
+        elif c < 0.91:
+            ops.append({"op": "flush", "h": h})
         else:
-            ops.append({"op": r.choice(["contains", "len", "items"]), "h": h, "k": r.choice(keys)})
+            ops.append({"op": r.choice(["contains", "len", "items", "values", "iter"]), "h": h, "k": r.choice(keys)})
     if state["open"] is not None:
         ops.append({"op": "close" if handles[state["open"]]["type"] == "ukv" else "end", "h": state["open"]})
     return {"check": CHECK, "bufsize": bufsize, "handles": handles, "header": header, "ops": ops}
@@ -230,12 +247,12 @@ def run_plan(plan, trace=False):
     def listing(h):
         if h["type"] == "ukv":
             return [bytes(k) for k in h["obj"].keys()]
-        return [k.encode("latin-1") for k in h["obj"].keys()]
+        return [k.encode("utf-8") for k in h["obj"].keys()]
 
     def getter(h, kb):
         if h["type"] == "ukv":
             return h["obj"].get(kb)
-        return h["obj"][kb.decode("latin-1")]
+        return h["obj"][kb.decode("utf-8")]
 
     def check_view(h, opname, full=False):
         ls = listing(h)
@@ -401,7 +418,7 @@ def run_plan(plan, trace=False):
                         else:
                             if not h.get("readonly"):
                                 continue  # writable collection inside reading(): misuse, outside the statement
-                            h["obj"][kb.decode("latin-1")] = b"nope"
+                            h["obj"][kb.decode("utf-8")] = b"nope"
                         viol("readonly-handle-accepted-a-put", "put-readonly", h, f"put({short(kb)}) did not raise")
                     except _Stop:
                         raise
@@ -421,7 +438,7 @@ def run_plan(plan, trace=False):
                         if h["type"] == "ukv":
                             h["obj"].put(kb, bad)
                         else:
-                            h["obj"][kb.decode("latin-1")] = bad
+                            h["obj"][kb.decode("utf-8")] = bad
                         viol("non-bytes-value-accepted", "put-badvalue", h, f"put({short(kb)}, {bad!r}) did not raise")
                     except _Stop:
                         raise
@@ -443,13 +460,15 @@ def run_plan(plan, trace=False):
                         should_fail = "oversize"
                     if len(kb) == 255:
                         res.stats["probe:key_255"] += 1
+                    if isinstance(op["k"], list) and op["k"][0] == "U":
+                        res.stats["probe:multibyte_key_oversize_in_bytes_only" if len(kb) > 255 else "probe:multibyte_key_stored"] += 1
                     if len(vb) + len(kb) + 5 > plan["bufsize"] >= 64:
                         res.stats["probe:direct_raw_write"] += 1
                     try:
                         if h["type"] == "ukv":
                             h["obj"].put(kb, vb)
                         else:
-                            h["obj"][kb.decode("latin-1")] = vb
+                            h["obj"][kb.decode("utf-8")] = vb
                         raised = None
                     except Exception as e:  # noqa: BLE001
                         raised = e
@@ -582,13 +601,48 @@ def run_plan(plan, trace=False):
                         continue
                     check_view(h, "keys", full=True)
                     outcome_seq.append(("keys",))
+                elif o == "x_existing":
+                    try:
+                        f2 = UKVFile(path, mode="x", h1=b"OTHER", h2=b"other comment")
+                    except FileExistsError:
+                        res.stats["probe:create_existing_rejected"] += 1
+                        stale_or_fail[0] = True
+                    else:
+                        f2.close()
+                        viol("exclusive-creation-of-existing-file-accepted", "x-existing", h, "UKVFile(path, mode='x') on an existing library did not raise")
+                    fresh_check("x-existing", h)
+                    outcome_seq.append(("x_existing",))
+                elif o == "flush":
+                    if not h["open"] or h["type"] != "coll" or h["mode"] != "a":
+                        continue
+                    # an explicit flush inside a writing session stores what is queued; nothing else changes
+                    h["obj"].flush()
+                    if h["obj"]._backend._write_queue:
+                        viol("flush-left-items-queued", "flush", h, f"{len(h['obj']._backend._write_queue)} items still queued")
+                    res.stats["probe:explicit_flush"] += 1
+                    check_view(h, "flush", full=True)
+                    outcome_seq.append(("flush",))
+                elif o in ("values", "iter"):
+                    if not h["open"]:
+                        continue
+                    obj = h["obj"]
+                    if o == "iter":
+                        ks = list(obj.keys()) if h["type"] == "ukv" else list(iter(obj))
+                        ks = [(k if isinstance(k, bytes) else k.encode("utf-8")) for k in ks]
+                        if sorted(ks) != sorted(model):
+                            viol("iteration-disagrees-with-puts", "iter", h, f"{len(ks)} keys vs {len(model)} in the model")
+                    else:
+                        vals = list(obj.values())
+                        if sorted(vals) != sorted(model.values()):
+                            viol("values-disagree-with-puts", "values", h, f"{len(vals)} values vs {len(model)} in the model")
+                    outcome_seq.append((o,))
                 elif o in ("contains", "len", "items"):
                     if not h["open"]:
                         continue
                     obj = h["obj"]
                     kb = key_bytes(op["k"])
                     if o == "contains":
-                        got = (kb in obj.keys()) if h["type"] == "ukv" else (kb.decode("latin-1") in obj)
+                        got = (kb in obj.keys()) if h["type"] == "ukv" else (kb.decode("utf-8") in obj)
                         if got != (kb in model):
                             viol("contains-disagrees-with-puts", "contains", h, f"{short(kb)} in handle = {got}")
                     elif o == "len":
@@ -599,7 +653,7 @@ def run_plan(plan, trace=False):
                         if h["type"] == "coll" and h["mode"] == "a" and h["cb"] > 0:
                             continue  # covered by check_view (queued keys) - items() would repeat it
                         items = dict(obj.items())
-                        items = {(k if isinstance(k, bytes) else k.encode("latin-1")): v for k, v in items.items()}
+                        items = {(k if isinstance(k, bytes) else k.encode("utf-8")): v for k, v in items.items()}
                         if items != model:
                             viol("items-disagree-with-puts", "items", h, f"{len(items)} items vs {len(model)} in the model")
                     outcome_seq.append((o,))
